@@ -180,6 +180,9 @@ def build_chm(entries, leaves, style="set", wrap=None, falses=()):
             if any(isinstance(c, int) for c in post):
                 continue
             items.sort(key=lambda t: t[0])
+            if style in ("arrayidx", "vmapped") and len(items) >= 2 and (len(items) + sum(t[0] for t in items)) % 2 == 0:
+                # index arrays need not be ascending: C[jnp.array([3, 1]), "z"]
+                items = items[::-1] if len(items) == 2 else items[1:] + items[:1]
             idxs = [i for i, _, _ in items]
             vals = jnp.stack([v for _, _, v in items])
             if style == "slice":
